@@ -318,8 +318,10 @@ def c11(ctx):
                         # TIMESTAMP lies in the future, the new one is still the start of this scan
                         t_now = t_prev - r.choice([30, 500, 86400])
                         stats['clock_stepped_back'] = stats.get('clock_stepped_back', 0) + 1
-                    ops = gen_history(r, live, t_prev)
-                    if case_no < 3 and rnd == 0:
+                    pinned_round = case_no < 3 and rnd == 0
+                    # (the history of a pinned round is replaced below: it must not leave paths it never creates in the live set)
+                    ops = gen_history(r, set(live) if pinned_round else live, t_prev)
+                    if pinned_round:
                         ops = [['add', 'dir/Manifest', ('DATA sub/f 5 %s\n' % ' '.join('%s %s' % (h, '0' * 40) for h in hashes[:case_no + 1])).encode(), t_prev - 50]]
                         stats['foreign_manifest_with_duplicate'] = stats.get('foreign_manifest_with_duplicate', 0) + 1
                         stats['foreign_manifest_above_a_registered_one'] = stats.get('foreign_manifest_above_a_registered_one', 0) + 1
